@@ -19,7 +19,8 @@ def mk_record(spec):
     feats = []
     for f in spec.get("feats", []):
         st = f.get("strand", 1)
-        locs = [FeatureLocation(a, b, strand=st) for a, b in f["parts"]]
+        # a part is [a, b] (strand of the feature) or [a, b, strand] (a join whose parts lie on different strands)
+        locs = [FeatureLocation(p_[0], p_[1], strand=(p_[2] if len(p_) > 2 else st)) for p_ in f["parts"]]
         loc = locs[0] if len(locs) == 1 else CompoundLocation(locs)
         quals = {k: list(v) for k, v in f.get("quals", {}).items()}
         if f.get("cites"):
@@ -154,7 +155,7 @@ def traced(cls, ctl):
 
 
 # ------------------------------------------------------------------ one call
-def call_assemble(vcls, mclss, vrec, mrecs, id_, name, fault=None, prequery=False, wrappers=None, dup_wrapper=None):
+def call_assemble(vcls, mclss, vrec, mrecs, id_, name, fault=None, prequery=False, wrappers=None, dup_wrapper=None, ambient=None):
     """performs vector.assemble(*modules) on the given record objects; returns the out dict"""
     from moclo import errors
     from moclo.record import CircularRecord
@@ -185,9 +186,16 @@ def call_assemble(vcls, mclss, vrec, mrecs, id_, name, fault=None, prequery=Fals
             kw["id"] = id_
         if name is not None:
             kw["name"] = name
-        with warnings.catch_warnings(record=True) as ws:
-            warnings.simplefilter("always")
+        if ambient is not None:
+            # the caller records warnings in ONE block around several calls, under Python's ordinary "default" action
+            # (a warning that the interpreter considers a repetition of an earlier one is then not delivered)
+            n0 = len(ambient)
             prod = guarded(lambda: vec.assemble(*mods, **kw), 30)
+            ws = ambient[n0:]
+        else:
+            with warnings.catch_warnings(record=True) as ws:
+                warnings.simplefilter("always")
+                prod = guarded(lambda: vec.assemble(*mods, **kw), 30)
         unused = []
         for w in ws:
             if isinstance(w.message, errors.UnusedModules):
@@ -281,8 +289,23 @@ def exec_assembly(r):
         wr = (vcls(vrec), [c(x) for c, x in zip(mclss, mrecs)])
     except Exception:  # noqa
         wr = None
+    amb = None
+    amb_cm = None
+    if (r.get("warmup") or r.get("repeat")) and not r.get("fault"):
+        # several calls in one process: warnings are recorded the way a user's session would see them
+        amb_cm = warnings.catch_warnings(record=True)
+        amb = amb_cm.__enter__()
+        warnings.simplefilter("default")
+    try:
+        return _exec_assembly_body(r, vcls, mclss, vrec, mrecs, inputs, wr, s, o, k, cutter, amb)
+    finally:
+        if amb_cm is not None:
+            amb_cm.__exit__(None, None, None)
+
+
+def _exec_assembly_body(r, vcls, mclss, vrec, mrecs, inputs, wr, s, o, k, cutter, amb):
     if r.get("warmup"):        # the logged call is the second one on the same objects
-        call_assemble(vcls, mclss, vrec, mrecs, r.get("id"), r.get("name"), None, wrappers=wr)
+        call_assemble(vcls, mclss, vrec, mrecs, r.get("id"), r.get("name"), None, wrappers=wr, ambient=amb)
     if r.get("edit_between"):  # the feature tables of the inputs are edited in place between the two calls
         from Bio.SeqFeature import FeatureLocation as _FL, SeqFeature as _SF
         for rec, extra in zip(inputs, r["edit_between"]):
@@ -293,7 +316,7 @@ def exec_assembly(r):
     before = [snapshot(x) for x in inputs]
     proj_in = [rec_proj(x) for x in inputs]
     out = call_assemble(vcls, mclss, vrec, mrecs, r.get("id"), r.get("name"), r.get("fault"), prequery=bool(r.get("prequery")), wrappers=wr,
-                        dup_wrapper=r.get("dup_wrapper"))
+                        dup_wrapper=r.get("dup_wrapper"), ambient=amb)
     if r.get("dup_wrapper") is not None and r["dup_wrapper"] < len(mrecs):
         proj_in = proj_in + [proj_in[1 + r["dup_wrapper"]]]      # the event shows the module twice, as it was supplied
     prod = out.pop("_product", None)
@@ -306,7 +329,7 @@ def exec_assembly(r):
           "rep": {"has": False, "out": {}, "after": []}, "twin": {"by": "none", "out": {}}}
     # C07: the same call again on the very same objects
     if r.get("repeat"):
-        out2 = call_assemble(vcls, mclss, vrec, mrecs, r.get("id"), r.get("name"), None, wrappers=wr)
+        out2 = call_assemble(vcls, mclss, vrec, mrecs, r.get("id"), r.get("name"), None, wrappers=wr, ambient=amb)
         out2.pop("_product", None)
         ev["rep"] = {"has": True, "out": out2, "after": [snapshot(x) for x in inputs]}
     tw = r.get("twin")
